@@ -113,7 +113,7 @@ def run(case):
         r, exc = None, exc_name(e)
     # ---- direct oracle: explicit loop over blocks
     ib = [int(np.rint(float(b))) for b in bl]
-    valid = kind != "qty_m" and (all(b == 1 for b in ib) or (len(ib) == len(shape) and all(b >= 1 and s % b == 0 for s, b in zip(shape, ib))))
+    valid = kind != "qty_m" and len(ib) == len(shape) and all(b >= 1 and s % b == 0 for s, b in zip(shape, ib))
     if exc is not None:
         if valid:
             why.append(f"rebin raised {exc} for a valid bin shape")
@@ -124,6 +124,8 @@ def run(case):
         out = {"t": "self"}
         if valid and not all(b == 1 for b in ib):
             why.append("rebin returned the cube itself for a non-trivial bin shape")
+        if valid and case["new_unit"]:
+            why.append("rebin returned the cube itself although a new unit was supplied")
         return {"out": out, "oracle": {"ok": not why, "why": "; ".join(why), "finding": None}}
     rd = np.asarray(r.data, dtype=float)
     rm = r.mask
@@ -191,7 +193,7 @@ def coq_case(case, res):
     hm = {"all": "HAll", "any": "HAny", "none": "HNone"}[case["hm"]]
     mk = {"none": "MNone", "true": "(MScalar true)", "false": "(MScalar false)"}.get(case["mask"], "MArray")
     if o["t"] == "err":
-        return f"mk {Q.lst(case['shape'], Q.z)} {bins} {opk} {Q.b(case['ignores'])} {hm} {mk} [] [] (OErr {Q.err(o['e'])})"
+        return f"mk {Q.lst(case['shape'], Q.z)} {Q.b(not case['new_unit'])} {bins} {opk} {Q.b(case['ignores'])} {hm} {mk} [] [] (OErr {Q.err(o['e'])})"
     inp = res.get("inp") or {"data": [], "marr": None}
     data = Q.lst(["None" if v is None else f"(Some {Q.q(v)})" for v in inp["data"]])
     marr = Q.lst([Q.b(x) for x in (inp["marr"] or [])])
@@ -202,4 +204,4 @@ def coq_case(case, res):
         mo = o["mo"]
         mos = "MoNone" if mo[0] == "none" else (f"(MoScalar {Q.b(mo[1])})" if mo[0] == "scalar" else f"(MoArray {Q.lst([Q.b(x) for x in mo[1]])})")
         impl = f"(OOk {Q.lst(o['shape'], Q.z)} {vals} {mos} {Q.b(o['um'])})"
-    return (f"mk {Q.lst(case['shape'], Q.z)} {bins} {opk} {Q.b(case['ignores'])} {hm} {mk} {data} {marr} {impl}")
+    return (f"mk {Q.lst(case['shape'], Q.z)} {Q.b(not case['new_unit'])} {bins} {opk} {Q.b(case['ignores'])} {hm} {mk} {data} {marr} {impl}")
